@@ -138,8 +138,9 @@ theorem ulen_small (n : Nat) (hs : SmallLen n) : Gen.ulen ((n : Int) + 1) = n :=
 
 theorem replaceSlots_eq (xs : List HVal) (x : HVal) (i : Nat) (hs : SmallLen xs.length) :
     replaceSlots xs x i = if i < xs.length then xs.set i x else xs := by
-  unfold replaceSlots Gen.replace_ok
+  unfold replaceSlots
   rw [ulen_small _ hs]
+  simp only [GenSem.replace_ok, Stk.small_isLen hs, decide_eq_true_eq]
   by_cases h : i < xs.length
   · have : (i : Int) < (xs.length : Int) := by omega
     simp [h, this]
